@@ -19,8 +19,9 @@ from ._impl import Matcher, Mismatch
 
 def LabelledMismatches(mismatches, details=None):
     """A collection of mismatches, each labelled."""
+    # A list, not a generator: describe() may be called more than once.
     return MismatchesAll(
-        (PrefixedMismatch(k, v) for (k, v) in sorted(mismatches.items())), wrap=False
+        [PrefixedMismatch(k, v) for (k, v) in sorted(mismatches.items())], wrap=False
     )
 
 
